@@ -19,6 +19,7 @@ package stream
 //@ ensures.monotone[C04] has0 ==> has(s.offsets, vbID) && s.offsets[vbID].SeqNo >= curSeq
 //@ ensures.dirty[C05] moves && dirty ==> stored(s.dirtyOffsets, vbID, true)
 //@ ensures.clean[C14] !dirty ==> unchanged(s.dirtyOffsets)
+//@ ensures.dirtyframe[C04,C05] unchanged(s.dirtyOffsets) || stored(s.dirtyOffsets, vbID, true)
 //@ ensures.flag s.anyDirtyOffset == old(s.anyDirtyOffset)
 //@ modifies content(s.offsets), content(s.dirtyOffsets), calls(models.Consumer.TrackOffset)
 
